@@ -4,6 +4,7 @@ import (
 	"fmt"
 	"go/token"
 	"go/types"
+	"sort"
 	"strings"
 
 	"golang.org/x/tools/go/ssa"
@@ -15,8 +16,13 @@ func propC13(c *Ctx) {
 	c.Explanation = "Decides the gate that admits a log to an integration and the identity of what it compares: (R13.1) in processLog every decode (Result.Scan), every topic conversion and every row append is dominated by BOTH tests – topic count == number of indexed inputs + 1 and first topic == signature hash – with the count test before the Topics[0] read; the two reference values are written only in dig.New from Event.SignatureHash()/numIndexed(); (R13.2) eth.Keccak is sha3.NewLegacyKeccak256 (not SHA3-256, which has the same type and passes every baseline test) over its whole argument, and SignatureHash applies it to the signature string; (R13.3) Event.Signature ranges over ALL inputs (no Indexed/selected skip) and Input.Signature recurses over all Components, replacing only the `tuple` prefix so array suffixes survive; (R13.4) numIndexed counts Indexed over all inputs. String-level correctness of the canonical form for every type tree is run-time."
 	w := c.W
 	pl := w.Fn("dig", "Integration.processLog")
-	fSig := w.Field("dig", "Integration", "sighash")
-	fNumIdx := w.Field("dig", "Integration", "numIndexed")
+	// the two reference values of the gate are found by what they hold, not by name: the fields
+	// every store of which is Event's signature hash, and the fields every store of which is
+	// numIndexed() + j (an integration may keep them in a small struct of their own: eventID{sighash, ntopics})
+	sigFields, countFields := gateFields(w)
+	if len(sigFields) == 0 || len(countFields) == 0 {
+		fatalf("anchor: no field holds the event's signature hash (%d) / the number of indexed inputs (%d)", len(sigFields), len(countFields))
+	}
 	fTopics := w.Field("eth", "Log", "Topics")
 
 	c.Rule("R13.1", "decode, topic conversion and row append in processLog are dominated by the topic-count and signature-hash tests", 5)
@@ -44,20 +50,25 @@ func propC13(c *Ctx) {
 				return false
 			}
 			d := aff.Of(b.X).sub(aff.Of(b.Y))
-			var kLen, kNum int64
+			var kLen, kNum, j int64
 			nAtoms := 0
 			for a, k := range d.t {
 				if k == 0 {
 					continue
 				}
 				nAtoms++
-				if x, ok := aff.lens[a]; ok && isTopicsLoad(x) {
+				if x, ok := aff.lens[a]; ok && isTopicsLoad(reg.Resolve(stripConv(x))) {
 					kLen = k
-				} else if v, ok := aff.vals[a]; ok && isLoadOfField(v, fNumIdx) {
-					kNum = k
+				} else if v, ok := aff.vals[a]; ok {
+					if lf, _ := loadedField(stripConv(v)); lf != nil {
+						if jj, isCount := countFields[lf]; isCount {
+							kNum, j = k, jj
+						}
+					}
 				}
 			}
-			return nAtoms == 2 && ((kLen == 1 && kNum == -1 && d.c == -1) || (kLen == -1 && kNum == 1 && d.c == 1))
+			// len(Topics) == numIndexed + 1 with the field holding numIndexed + j
+			return nAtoms == 2 && ((kLen == 1 && kNum == -1 && d.c == j-1) || (kLen == -1 && kNum == 1 && d.c == 1-j))
 		}
 		type gate struct {
 			fn *ssa.Function
@@ -79,14 +90,21 @@ func propC13(c *Ctx) {
 				continue
 			}
 			a0, a1 := stripConv(call.Call.Args[0]), stripConv(call.Call.Args[1])
-			isSig := func(v ssa.Value) bool { return isFieldValueOrSlice(v, fSig) }
+			isSig := func(v ssa.Value) bool {
+				for f := range sigFields {
+					if isFieldValueOrSlice(v, f) {
+						return true
+					}
+				}
+				return false
+			}
 			isTopic0 := func(v ssa.Value) bool {
 				s, idx, ok := elemOf(v)
 				if !ok {
 					return false
 				}
 				n, okc := constInt(idx)
-				return okc && n == 0 && isTopicsLoad(s)
+				return okc && n == 0 && isTopicsLoad(reg.Resolve(stripConv(s)))
 			}
 			if (isSig(a0) && isTopic0(a1)) || (isSig(a1) && isTopic0(a0)) {
 				hashCall = call
@@ -115,9 +133,16 @@ func propC13(c *Ctx) {
 						break
 					}
 					for _, lf := range phiLeaves(vals[0]) {
+						// a value that arrives over a phi edge is judged on that edge (`return a == b && c`)
+						behind := func() bool {
+							if lf.Phi != nil && lf.Pred != nil {
+								return edgeGuarded(gt.fn, lf.Pred, lf.Phi.Block(), gt.ok) || guardedByEdges(gt.fn, r, gt.ok)
+							}
+							return guardedByEdges(gt.fn, r, gt.ok)
+						}
 						switch v := lf.Val.(type) {
 						case *ssa.Const:
-							if v.Value != nil && v.Value.String() == "true" && !guardedByEdges(gt.fn, r, gt.ok) {
+							if v.Value != nil && v.Value.String() == "true" && !behind() {
 								implies = false
 							}
 						default:
@@ -125,7 +150,7 @@ func propC13(c *Ctx) {
 								// the result IS the test – evaluated behind whatever guards this return
 								continue
 							}
-							if !guardedByEdges(gt.fn, r, gt.ok) {
+							if !behind() {
 								implies = false
 							}
 						}
@@ -199,40 +224,40 @@ func propC13(c *Ctx) {
 		c.Check("R13.1", fmt.Sprintf("processLog/%s#%d", kind, callOrdinal(ci)), instrPos(ci), ok, kind+" only for logs that passed both gate tests")
 	}
 	// returns that pass rows through unchanged are fine; any return of a *grown* rows is covered by the append rule
-	for _, spec := range []struct {
-		f    *types.Var
-		from string
-	}{{fSig, "SignatureHash"}, {fNumIdx, "numIndexed"}} {
-		var bad []string
-		cnt := 0
-		for _, fn := range w.RepoFuncs() {
-			allInstrs(fn, func(in ssa.Instruction) {
-				st, ok := in.(*ssa.Store)
-				if !ok {
-					return
-				}
-				if f, _ := fieldOf(st.Addr); f != spec.f {
-					return
-				}
-				cnt++
-				okSrc := false
-				if call, ok := st.Val.(*ssa.Call); ok {
-					if f := staticCallee(call); f != nil && f.Signature.Recv() != nil && repoNamedIs(f.Signature.Recv().Type(), "dig", "Event") {
-						if f.Name() == spec.from {
-							okSrc = true
-						}
-						// … or another method of Event that yields the same thing (signatureHash32 as an array)
-						if spec.from == "SignatureHash" && isSigHashFn(w, f) {
-							okSrc = true
+	{
+		newFn := w.Fn("dig", "New")
+		nreg0 := NewRegion(newFn)
+		for _, grp := range []struct {
+			name string
+			fs   []*types.Var
+		}{{"sighash", sortedVars(sigFields)}, {"numIndexed", sortedVarsInt(countFields)}} {
+			var bad []string
+			cnt := 0
+			for _, fn := range w.RepoFuncs() {
+				allInstrs(fn, func(in ssa.Instruction) {
+					st, ok := in.(*ssa.Store)
+					if !ok {
+						return
+					}
+					f, _ := fieldOf(st.Addr)
+					isOne := false
+					for _, gf := range grp.fs {
+						if gf == f {
+							isOne = true
 						}
 					}
-				}
-				if fnName(fn) != "dig.New" || !okSrc {
-					bad = append(bad, fnName(fn)+" at "+w.Pos(st.Pos()))
-				}
-			})
+					if !isOne {
+						return
+					}
+					cnt++
+					// in the constructor, or in a function only the constructor calls (newEventID)
+					if !nreg0.Has(fn) {
+						bad = append(bad, fnName(fn)+" at "+w.Pos(st.Pos()))
+					}
+				})
+			}
+			c.Check("R13.1", "who-may-write/Integration."+grp.name, grp.fs[0].Pos(), cnt > 0 && len(bad) == 0, fmt.Sprintf("stored only while the integration is constructed (dig.New), from Event.SignatureHash()/numIndexed(); offenders: %v", bad))
 		}
-		c.Check("R13.1", "who-may-write/Integration."+spec.f.Name(), spec.f.Pos(), cnt > 0 && len(bad) == 0, fmt.Sprintf("stored only in dig.New from Event.%s(); offenders: %v", spec.from, bad))
 	}
 
 	// ---- R13.2 ----------------------------------------------------------
@@ -796,4 +821,99 @@ func sigHashFn(w *World, f *ssa.Function, d int) bool {
 		}
 	}
 	return len(rets) > 0
+}
+
+// gateFields: the struct fields of package dig that hold the event's signature
+// hash (every store is the result of a method of Event that yields it) and
+// those that hold numIndexed() + j (every store; j constant).
+func gateFields(w *World) (map[*types.Var]bool, map[*types.Var]int64) {
+	type obs struct {
+		sig, cnt, other int
+		j               int64
+	}
+	seen := map[*types.Var]*obs{}
+	ni := w.Fn("dig", "Event.numIndexed")
+	digPkg := w.Pkg("dig")
+	for _, fn := range w.RepoFuncs() {
+		if fn.Pkg != digPkg && (fn.Parent() == nil || fn.Parent().Pkg != digPkg) {
+			continue
+		}
+		allInstrs(fn, func(in ssa.Instruction) {
+			st, ok := in.(*ssa.Store)
+			if !ok {
+				return
+			}
+			f, _ := fieldOf(st.Addr)
+			if f == nil {
+				return
+			}
+			o := seen[f]
+			if o == nil {
+				o = &obs{}
+				seen[f] = o
+			}
+			v := stripConv(st.Val)
+			if call, ok := v.(*ssa.Call); ok {
+				if cal := staticCallee(call); cal != nil && isSigHashFn(w, cal) {
+					o.sig++
+					return
+				}
+			}
+			// numIndexed() + j
+			aff := &affEnv{}
+			l := aff.Of(st.Val)
+			nAtoms, okForm := 0, true
+			for a, k := range l.t {
+				if k == 0 {
+					continue
+				}
+				nAtoms++
+				av, has := aff.vals[a]
+				call, isCall := av.(*ssa.Call)
+				if !has || !isCall || staticCallee(call) != ni || k != 1 {
+					okForm = false
+				}
+			}
+			if nAtoms == 1 && okForm && isIntType(f.Type()) {
+				if o.cnt > 0 && o.j != l.c {
+					o.other++
+				}
+				o.cnt++
+				o.j = l.c
+				return
+			}
+			o.other++
+		})
+	}
+	sig, cnt := map[*types.Var]bool{}, map[*types.Var]int64{}
+	for f, o := range seen {
+		if o.other > 0 {
+			continue
+		}
+		if o.sig > 0 && o.cnt == 0 {
+			sig[f] = true
+		}
+		if o.cnt > 0 && o.sig == 0 {
+			cnt[f] = o.j
+		}
+	}
+	return sig, cnt
+}
+
+func sortedVars(m map[*types.Var]bool) []*types.Var {
+	var out []*types.Var
+	for f := range m {
+		out = append(out, f)
+	}
+	sort.Slice(out, func(i, j int) bool { return out[i].Pos() < out[j].Pos() })
+	return out
+}
+
+func sortedVarsInt(m map[*types.Var]int64) []*types.Var {
+	var out []*types.Var
+	for f := range m {
+		out = append(out, f)
+	}
+	sort.Slice(out, func(i, j int) bool { return out[i].Pos() < out[j].Pos() })
+	return out
 }
